@@ -2,7 +2,7 @@
 // (tf), Recover / RecoverAll against the status views (tr).
 //
 //	C06 tf <self> <faults> <recs> <filters> => S=.. SI=<cid:bits,..> L<f>=.. LI=<cid:bits,..>
-//	C06 tr <self> <e|a> <recs> => B=<cid:st,..> R=<cid:st,..> A=<cid:st,..>
+//	C06 tr <self> <e|a> <recs> => B=<cid:st,..> R=<cid:st,..> A=<cid:st,..> E=<cid:0|1,..>
 //
 // faults: "-" or a comma list of gs (getState fails), ls (State.List fails),
 // lm (State.List fails mid-way: the real dsstate sees an error result after
@@ -348,7 +348,13 @@ func observeRecover(ctx context.Context, tr *stateless.Tracker, c tcase, fake *i
 		}
 		return m
 	}
-	before, answer, after := map[int]int{}, map[int]int{}, map[int]int{}
+	before, answer, after, etext := map[int]int{}, map[int]int{}, map[int]int{}, map[int]int{}
+	text := func(pi *api.PinInfo) int {
+		if pi.Error != "" {
+			return 1
+		}
+		return 0
+	}
 	var extra []string
 	if mode == "e" {
 		for _, r := range c.recs {
@@ -365,6 +371,7 @@ func observeRecover(ctx context.Context, tr *stateless.Tracker, c tcase, fake *i
 				continue
 			}
 			answer[r.cid] = int(pi.Status)
+			etext[r.cid] = text(pi)
 			if pi2 := tr.Status(ctx, ci); pi2 != nil {
 				after[r.cid] = int(pi2.Status)
 			}
@@ -382,11 +389,13 @@ func observeRecover(ctx context.Context, tr *stateless.Tracker, c tcase, fake *i
 				continue
 			}
 			answer[k] = int(pi.Status)
+			etext[k] = text(pi)
 		}
 		after = listing()
 	}
 	sort.Strings(extra)
 	*released = true
 	close(fake.release)
-	return fmt.Sprintf("B=%s R=%s A=%s", sortedPairs(before, nil), sortedPairs(answer, extra), sortedPairs(after, nil)), ""
+	return fmt.Sprintf("B=%s R=%s A=%s E=%s", sortedPairs(before, nil), sortedPairs(answer, extra), sortedPairs(after, nil),
+		sortedPairs(etext, nil)), ""
 }
